@@ -21,7 +21,8 @@ def judge(case, seq, data, exc, acc) -> None:
                       f"case={case}", case)
         return
     expect = T.norm_seq(seq)
-    readers = DR.G_READERS if case["writer"] != "stream_frames_gen" or len(seq) <= 2 else ("flat",)
+    readers = DR.G_READERS if (case["writer"] != "stream_frames_gen" or len(seq) <= 2
+                               or case.get("family") == "scale") else ("flat",)
     for reader in readers:
         try:
             got = DR.stmts_of(DR.g_read(data, reader))
@@ -148,11 +149,11 @@ def bfs_shard(job) -> dict:
 
 def run(ctx) -> None:
     if ctx.quick:
-        jobs = RT.core_jobs(3) + RT.entry_jobs(2)
+        jobs = RT.core_jobs(3) + RT.entry_jobs(2) + RT.scale_jobs()
         cap = 2500
     else:
         jobs = RT.core_jobs(4, long_scopes=("prefix", "datatype"), long_len=5, parts=16)
-        jobs += RT.entry_jobs(3)
+        jobs += RT.entry_jobs(3) + RT.scale_jobs()
         cap = 120000
     expected = RT.expected_cases(jobs)
     bjobs = [("bfs", name, cap) for name in BFS_SCOPES]
